@@ -89,6 +89,8 @@ def record_programs(seed, n_programs, max_ops, only_construct=False):
                 kw["bin_count"] = rng.choice([2, 5, 10])
                 if len(set(data)) < 2:
                     data.append(data[0] + g0.w)
+            elif rng.random() < 0.5:
+                kw["bin_width"] = rng.choice([2, 3])         # "group bin_width integers into one bin"
             adaptive = rng.random() < 0.3
             call = {"program": p, "call": f"h1(data, {method!r}, adaptive={adaptive})", "kwargs": kw, "points": [[repr(v)] for v in data]}
             try:
@@ -96,6 +98,14 @@ def record_programs(seed, n_programs, max_ops, only_construct=False):
             except Exception as ex:      # refusing is not wrong; it is just not a recorded execution
                 continue
             bd = h.binning.to_dict()
+            # the rule of the method: the width asked for; integer bins have half-integer edges (every integer strictly inside a
+            # bin, bin_width integers per bin), fixed_width bins lie on the multiples of the width
+            want_w = kw.get("bin_width", 1) if method in ("fixed_width", "integer") else None
+            want_s = 0.5 if method == "integer" else (0.0 if method == "fixed_width" else None)
+            if (want_w is not None and bd["bin_width"] != want_w) or (want_s is not None and (bd["bin_shift"] or 0.0) % bd["bin_width"] != want_s % bd["bin_width"]):
+                direct.append({"call": call, "error": {"fields": ["rule"], "detail": {"expected": {"bin_width": want_w, "bin_shift": want_s},
+                                                                                   "observed": {"bin_width": bd["bin_width"], "bin_shift": bd["bin_shift"]}}}})
+                continue
             g = GridEmb(bd["bin_width"], bd["bin_shift"])
             st, err = alpha(h, [g])
             if err is not None:
